@@ -310,7 +310,7 @@ static std::string encInit(Constant *C, int depth = 0) {
     return "0";
   }
   if (auto *CDS = dyn_cast<ConstantDataSequential>(C)) {
-    if (CDS->isString() || CDS->isCString()) return jstr(CDS->getAsString());
+    if (CDS->isCString()) { bool pr = true; for (unsigned char c : CDS->getAsCString()) if (c < 0x20 && c != '\n' && c != '\t') pr = false; if (pr && CDS->getNumElements() > 1) return jstr(CDS->getAsString()); }
     std::string s = "["; for (unsigned i = 0; i < CDS->getNumElements(); i++) { if (i) s += ","; s += encInit(CDS->getElementAsConstant(i), depth + 1); } return s + "]";
   }
   if (auto *CA = dyn_cast<ConstantAggregate>(C)) {
